@@ -1,10 +1,14 @@
 //! Shared machinery for the /verif property checks (engine, oracles, generators, zoo).
+// lets files written against `vh_core::...` paths (props/c02/src/toy_cfg.rs) be included in this crate too
+extern crate self as vh_core;
+
 pub mod curve;
 pub mod engine;
 pub mod gen;
 pub mod modint;
 pub mod tower;
 pub mod toy;
+pub mod toy_ext;
 pub mod zoo;
 
 pub use engine::{fail, Fail, Obs, PropSpec, Rel, Tape, Tier, R};
